@@ -90,7 +90,7 @@ impl G {
             1 => format!("{callee}({a})"),
             _ => format!("{callee}({a}, {b})"),
         };
-        let f = self.rng.below(9);
+        let f = self.rng.below(13);
         let kind = format!("consumer={f}");
         let all = *self.rng.pick(&[".to_tuple()", ".to_list()", ".count()", ".consume()", ".last()"]);
         let pass = *self.rng.pick(&[".each(|p| p)", ".keep(|p| true)", ".enumerate()", ".chain((1, 2))", ".skip(0)"]);
@@ -115,8 +115,60 @@ impl G {
             }
             6 => vec![format!("{c}{e}for {q} in {call}{pass}"), format!("  {v} = {q}")],
             7 => vec![format!("{q} = {call}"), format!("{c}{e}{v} = iterator.next({q}.skip({yields}))")],
-            _ => vec![format!("{c}{e}{v} = match {call}{all}"), "  0 then 1".into(), "  else 2".into()],
+            8 => vec![format!("{c}{e}{v} = match {call}{all}"), "  0 then 1".into(), "  else 2".into()],
+            // copies of the generator run to the same fault and report the same frames
+            9 => vec![format!("{c}{e}{v} = koto.copy({call}){all}")],
+            10 => vec![format!("{q} = {call}"), format!("{c}{e}{v} = koto.deep_copy({q}){all}")],
+            11 => vec![format!("{v} = {call}"), "  .cycle()".to_string(), "  .take(50)".to_string(), format!("{c}{e}  {all}")],
+            // (flatten hands the error of an inner generator through without a frame of its own)
+            _ => vec![format!("{v} = [{call}, 0]"), "  .flatten()".to_string(), format!("{c}{e}  {all}")],
         };
         Expr { lines, atomic: false, stmt_only: true, is_call: true, kind }
+    }
+}
+
+/// the lazy adaptors of crates/runtime/src/core_lib/iterator/adaptors.rs that record an error frame
+/// (`error_frame` field: the line where the adaptor was created is added to the trace of an error
+/// raised while it is advanced): (struct, how the generator exercises it)
+const LAZY_ADAPTORS: &[(&str, &str)] = &[
+    ("Each", "`.each |p|` callback, original and copies"),
+    ("Keep", "`.keep |p|` predicate, original and copies"),
+    ("TakeWhile", "`.take |p|` predicate, original and copies"),
+    ("IntersperseWith", "`.intersperse ||` separator function, original and copies"),
+    ("Flatten", "frame only for script code run while making the iterator of an element (an object's @iterator); errors of inner generators are handed through: generated as a pass-through consumer of generators only"),
+];
+
+impl Ctx {
+    fn check_adaptor_table(&mut self) {
+        let repo = std::env::var("KOTO_REPO").unwrap_or_else(|_| "/repo".into());
+        let Ok(text) = std::fs::read_to_string(format!("{repo}/crates/runtime/src/core_lib/iterator/adaptors.rs")) else {
+            self.rep.note("adaptor table: adaptors.rs not readable (KOTO_REPO), adaptors with error frames not cross-checked");
+            return;
+        };
+        // structs whose definition has an `error_frame` field
+        let mut real: Vec<String> = vec![];
+        let mut cur: Option<String> = None;
+        for l in text.lines() {
+            if let Some(rest) = l.strip_prefix("pub struct ") {
+                cur = Some(rest.chars().take_while(|c| c.is_ascii_alphanumeric()).collect());
+            } else if l.starts_with('}') {
+                cur = None;
+            } else if l.trim_start().starts_with("error_frame:") && l.starts_with("    error_frame") {
+                if let Some(c) = &cur {
+                    real.push(c.clone());
+                }
+            }
+        }
+        let table: Vec<String> = LAZY_ADAPTORS.iter().map(|x| x.0.to_string()).collect();
+        let missing: Vec<&String> = real.iter().filter(|x| !table.contains(x)).collect();
+        let stale: Vec<&String> = table.iter().filter(|x| !real.contains(x)).collect();
+        self.rep.bump_by("lazy_adaptors_with_error_frame_in_table", table.len() as u64);
+        if !missing.is_empty() || !stale.is_empty() {
+            self.k(
+                "K:C12:lazy-adaptor-table",
+                json!({"replay_kind": "adaptor-table", "program": "", "adaptors_not_in_table": missing, "table_entries_not_in_source": stale,
+                       "note": "the set of iterator adaptors with an error frame in adaptors.rs changed: LAZY_ADAPTORS of harness/src/bin/c12_parts/resume.rs (which adaptors get planted faults in their callbacks) no longer enumerates it"}),
+            );
+        }
     }
 }
